@@ -100,7 +100,9 @@ func VerifC04YAMLPipeline() {
 	default:
 		output = obj("directory", "out", "languages", arr(lang, lang), "templates_data", obj("k", "%root%"))
 	}
-	doc := obj("inputs", arr(input), "output", output, "parameters", obj("dir", "/d", "root", "r"))
+	// parameters may refer to each other, to themselves (growing), or in a cycle
+	doc := obj("inputs", arr(input), "output", output, "parameters",
+		obj("dir", v.Str("dirvalue", "/d", "%dir%/sub", "%root%"), "root", v.Str("rootvalue", "r", "%dir%")))
 	p, err := PipelineFromFile(v.TempFile(v.JSONBytes(doc)), Parameters(map[string]string{"cond": "true"}))
 	if err != nil {
 		v.Reach("the loader rejected the file")
